@@ -278,6 +278,21 @@ def run(repo, chk):
     frs = facts_of(rs)
     is_m = "isinstance(fn, types.MethodType)"
     ok = len(mt) == 1 and (frs.has("el = el.clone(name=real_fn)", when=[is_m]) and frs.has("real_fn = _dig(fn.__func__)", when=[is_m]) or frs.has("el = el.clone(name=_dig(fn.__func__))", when=[is_m]))
+    fe = repo.func("selector._find_eval_env")
+    frp = fe.node.args.args[1].arg
+    piles = [n for n in walk_local(fe.node) if isinstance(n, ast.Call) and norm(n.func) == "DictPile"]
+    from ..astq import expand as _expand
+    def _src(a):
+        if isinstance(a, ast.Name):
+            st = [x for x in walk_local(fe.node) if isinstance(x, ast.Assign) and any(isinstance(t, ast.Name) and t.id == a.id for t in x.targets)]
+            if len(st) == 1:
+                return norm(st[0].value)
+        return _expand(a, fe.node)
+    shape = [[_src(a) for a in n.args] for n in piles]
+    chk.ob("R13.3", "selector._find_eval_env:names-resolve-as-in-the-writing-frame", len(piles) == 1 and not piles[0].keywords
+           and shape[0] == [f"{frp}.f_locals", f"{frp}.f_globals", "__builtins__"], fe.where,
+           f"the names of a selector (`obj.method > v`, `Cls.method > v`) are looked up as Python would in the frame where the selector is written: "
+           f"its locals, then its globals, then the builtins -- a local that shadows a global of the same name designates the local object (found {shape})")
     chk.ob("R13.3", "selector._resolve:method-resolved-to-function", ok, rs.where, "a bound method is resolved to its underlying (unwrapped) function")
     recv_in_else = mt and any(is_receiver_expr(n, set()) for s in mt[0].orelse for n in ast.walk(s))
     recv_in_body = mt and any(is_receiver_expr(n, set()) for s in mt[0].body for n in ast.walk(s))
